@@ -781,6 +781,43 @@ def truth_table(body, atoms, max_steps=600, target_bb=None, field_owner=None):
     return names, table
 
 
+def closure_calls(unit, body, sl):
+    """calls made by the closures whose values are part of the slice (`opt.is_some_and(|x| f(x))`: f is evaluated when the combinator runs)"""
+    out = []
+    for l in sl.locals:
+        cp = unit.closure_of_type(body.local_ty(l))
+        cb = unit.body(cp) if cp else None
+        if cb is not None:
+            out.extend(cb.calls())
+            for cp2 in unit.closures_of(cp):
+                out.extend(unit.body(cp2).calls())
+    return out
+
+
+def guards_target(body, cmps, target_bb):
+    """cmps: dict name -> Cmp (== or !=). Path-sensitive version of "the equal side of every comparison dominates target_bb": folds the CFG
+    (truth_table follows bool locals through `&&` / `||` / `!` / flags) and returns name -> True iff on EVERY way to target_bb the comparison
+    was evaluated and said "equal". Robust against `let ok = a == x && b == y; if ok {..}`, De Morgan, swapped branches, early returns."""
+    atoms = {n: c.bb for n, c in cmps.items() if c.op in ('==', '!=')}
+    if not atoms:
+        return {}
+    names, table = truth_table(body, atoms, target_bb=target_bb)
+    res = {n: True for n in atoms}
+    reached = False
+    for key, r in table.items():
+        may = (r is True) or (isinstance(r, str) and 'True' in r)
+        if not may:
+            continue
+        reached = True
+        for n, v in zip(names, key):
+            want = (cmps[n].op == '==')
+            if v is None or v != want:
+                res[n] = False
+    if not reached:
+        return {n: False for n in atoms}
+    return res
+
+
 def table_equals(tt, fn):
     """tt = (names, table) from truth_table; fn(dict name->bool|None) -> expected bool.
     The expectation is evaluated with short-circuit awareness: atoms that were not
